@@ -2051,7 +2051,7 @@ def run(ck):
     # generated files C16 depends on: the tetrahedron / alkene translation tables (through Proofs.StereoProofs, C12) and
     # Gen.ReactorShape = digests + branch conditions of every reactor function the hand-written models mirror (own translator
     # tools/gen_reactorshape.py; C16_reactor_shape_unchanged / C16_reactor_conditions_unchanged stop compiling on any edit)
-    proved = timed('proof steps', lambda c: common.standard_proof_steps(c, translators=['stereo', 'reactorshape']))
+    proved = timed('proof steps', lambda c: common.standard_proof_steps(c, translators=['stereo', 'reactorshape', 'reactorbody']))
     tied = timed('corr to_delete', corr_to_delete)
     tied = timed('corr get_deleted', corr_get_deleted) and tied
     tied = timed('corr patcher', corr_patcher) and tied
